@@ -11,9 +11,10 @@
  "loop_contracts": false,
  "unwind": 9, "thorough_unwind": 17,
  "bounded": true, "bound": "heaps with <= 7 elements (quick) / <= 15 (thorough); all loops fully unwound",
- "timeout": 300,
- "assumptions": ["HP_MODEL=1: abstract user callbacks of harness/C13/hp_model.h; HP_MODEL=2: real compar/setreccookie of timerqueue.c",
-                 "pointer-list allocation <= (HP_MAXN+1)*8 bytes"]
+ "timeout": 600,
+ "assumptions": ["HP_MODEL=1: abstract user callbacks of harness/C13/hp_model.h; HP_MODEL=2: real struct timerrec, compar, setreccookie of timerqueue.c",
+                 "slot k of the initial heap holds record object R[k]: symmetry reduction, sound for distinct elements because ptrheap.c never inspects element pointers (arbitrary layouts incl. duplicate pointers: groups *_any at 4 elements)",
+                 "elasticarray.c is inlined (real code); pointer-list allocation is an exact-size object of n..HP_MAXN+1 slots"]
 }
 */
 #include "hp_model.h"
@@ -32,9 +33,8 @@ h_heapifyup(void)
 
 	heapifyup(L, i, HP_COMPAR, use_rc ? HP_SETRC : NULL, ck);
 
-	/* the element moved at least two levels up, with handles */
+	/* the element moved at least two levels up, with handles; stayed; was the tracked pointer */
 	VCOVER(use_rc && i >= 3 && L_buf[0] == e_i);
-	VCOVER(!use_rc && i >= 3 && L_buf[HP_PAR(i)] == e_i);
-	VCOVER(use_rc && n == HP_MAXN && i == n - 1 && L_buf[i] == e_i);
+	VCOVER(!use_rc && n == HP_MAXN && i == n - 1 && L_buf[i] == e_i);
 	VCOVER(g_hp_ptr == e_i && i > 0 && L_buf[i] != e_i);
 }
